@@ -60,6 +60,13 @@ def gen_azimuth(rng):
     n = rng.randint(2, 5)
     ids = pick_ids(rng, n)
     T = {i: coords(rng) for i in ids}
+    if rng.random() < 0.15:
+        # the 0 / 2*pi seam of prepare (fix 8d96812): a pair whose azimuth is 0 up to rounding, or exactly 0
+        a, b = ids[0], ids[1]
+        d = rng.uniform(50, 500)
+        T[b] = (T[a][0] + d * math.cos(xn), T[a][1] + d * math.sin(xn), T[b][2])
+        if xn == 0.0 and rng.random() < 0.5:
+            T[b] = (T[a][0] + float(round(d)), T[a][1], T[b][2])
     consistent = rng.random() < 0.8
     known = {i for i in ids if rng.random() < 0.45} or {rng.choice(ids)}
     if rng.random() < 0.1:
@@ -222,7 +229,7 @@ def gen_zderived(rng, face2=False):
             h = hd(T[s], T[t])
             dzi = T[t][2] + tdh - (T[s][2] + fdh)
             za = math.atan2(h, dzi)
-            if face2:
+            if face2 or rng.random() < 0.15:          # second-face reading (reduced by AcordZderived since 50e5b35)
                 za = TWO_PI - za
             sd = math.hypot(h, dzi)
             if not consistent and rng.random() < 0.4:
@@ -246,7 +253,7 @@ def gen_zderived(rng, face2=False):
         if rng.random() < 0.3:
             obs.insert(rng.randrange(len(obs) + 1), f"dir {s} {rng.choice(tg)} {H(rng.uniform(0, 6))}")
         recs.append(f"S {s} " + " ".join(obs))
-    return hdr + " " + " ".join(recs), dict(alg="zderived", truth=T, consistent=consistent and same_dh and not face2,
+    return hdr + " " + " ".join(recs), dict(alg="zderived", truth=T, consistent=consistent and same_dh,
                                             branches=branch, face2=face2)
 
 
